@@ -191,26 +191,19 @@ func (lv *LeafVariants) GetHighestPrecedence(onlyNewOrUpdated bool, includeDefau
 		return nil
 	}
 
+	// highest is the entry with the highest precedence, no matter if it is about to be deleted
+	// highestRemaining is the entry with the highest precedence that is not marked for deletion
 	var highest *LeafEntry
-	var secondHighest *LeafEntry
+	var highestRemaining *LeafEntry
 	for _, e := range lv.les {
-		// first entry set result to it
-		// if it is not marked for deletion
-		if highest == nil {
+		if highest == nil || highest.Priority() > e.Priority() {
 			highest = e
+		}
+		if e.GetDeleteFlag() {
 			continue
 		}
-		// on a result != nil that is then not marked for deletion
-		// start comparing priorities and choose the one with the
-		// higher prio (lower number)
-		if highest.Priority() > e.Priority() {
-			secondHighest = highest
-			highest = e
-		} else {
-			// check if the update is at least higher prio (lower number) then the secondHighest
-			if secondHighest == nil || secondHighest.Priority() > e.Priority() {
-				secondHighest = e
-			}
+		if highestRemaining == nil || highestRemaining.Priority() > e.Priority() {
+			highestRemaining = e
 		}
 	}
 
@@ -232,9 +225,9 @@ func (lv *LeafVariants) GetHighestPrecedence(onlyNewOrUpdated bool, includeDefau
 		}
 		return nil
 	}
-	// otherwise if the secondhighest is not marked for deletion return it
-	if !checkExistsAndDeleteFlagSet(secondHighest) && checkNotOwner(secondHighest, RunningIntentName) {
-		return secondHighest
+	// otherwise the best remaining entry takes over, if it is not running or a default
+	if highestRemaining != nil && checkNotOwner(highestRemaining, RunningIntentName) && checkNotOwner(highestRemaining, DefaultsIntentName) {
+		return highestRemaining
 	}
 
 	// otherwise return nil
